@@ -263,14 +263,41 @@ theorem C15_break_text_safe (L : Layout) (md : Mode) (pre : List Ev) (g : Sig) (
       by_cases hs : s.stop ≤ 1
       · rw [deliver_ok md s g hd hs] at hb
         rcases List.mem_cons.mp hb with h | h
-        · simpa using h
+        · exact brk_eq_writeObs md s n ok h
         · exfalso; split at h <;> simp at h
       · rw [(deliver_exit md s g hd (by omega)).2] at hb
-        simpa using hb
+        simp at hb
+        exact brk_eq_writeObs md s n ok hb
   obtain ⟨rfl, rfl⟩ := hbrk
   rcases key with ⟨h0 | ⟨hl, hp⟩, k2, k3⟩
   · exact ⟨by simp [h0], Or.inl h0, k2, k3⟩
   · exact ⟨by simp [hp], Or.inr hl, k2, k3⟩
+
+/-! ## the state of standard output does not matter -/
+
+/-- **The write step cannot affect the rest of the handler** (full strength).  Whether `write(1, …)` succeeds or
+    fails (stdout closed, read-only, device full), one delivery leaves exactly the same state — stop counter,
+    dispositions, termination — and makes exactly the same observations apart from the break text itself
+    (callback with its data, `_exit`, re-arm). -/
+theorem C15_write_result_irrelevant (sem : SigSem) (w1 w2 : Bool) (s : St) (g : Sig) :
+    (deliver ⟨sem, w1⟩ s g).1 = (deliver ⟨sem, w2⟩ s g).1 ∧
+    nonWrite (deliver ⟨sem, w1⟩ s g).2 = nonWrite (deliver ⟨sem, w2⟩ s g).2 :=
+  deliver_write_irrelevant sem w1 w2 s g
+
+/-- … hence whole runs: every event sequence ends in the same state and shows the same stop-query answers,
+    callbacks, exits and re-arms under every stdout state.  (All other theorems of this file are stated for an
+    arbitrary `Mode`, so they hold under every stdout state as well.) -/
+theorem C15_run_independent_of_stdout (sem : SigSem) (w1 w2 : Bool) (s : St) (evs : List Ev) :
+    (run ⟨sem, w1⟩ s evs).1 = (run ⟨sem, w2⟩ s evs).1 ∧
+    nonWrite (run ⟨sem, w1⟩ s evs).2 = nonWrite (run ⟨sem, w2⟩ s evs).2 :=
+  run_write_irrelevant sem w1 w2 evs s
+
+/-- unwritable stdout, `C R(1,1) W W` with three signals: recorded, callback with its data, stop query true, third
+    signal exits — only the break text is missing -/
+example :
+    let evs := schedule (expandProg Layout.current [.ctor, .reg 1 1, .work, .work]) 0 [(10, .int), (11, .term), (11, .int)]
+    (run ⟨.bsd, false⟩ init evs).2 =
+      [.brkFail, .cb 1 1, .rearm .int, .query true, .brkFail, .cb 1 1, .rearm .term, .brkFail, .exit1] := by decide
 
 /-! ## the handler stays installed -/
 
